@@ -7,6 +7,7 @@ import (
 	"github.com/Trendyol/go-dcp/models"
 	"math"
 	"os"
+	"strings"
 	"time"
 
 	"github.com/Trendyol/go-dcp/config"
@@ -112,6 +113,11 @@ func init() {
 			out = append(out, Instance{Scenario: "c12_afterrebalance", Params: mustJSON(AfterRebParams{OldServer: true}), Bound: 1, Shards: 8, Note: "server below 5.5.0 (serial close): the end of the last vBucket against the tail of Close(), all single deviations"})
 			out = append(out, Instance{Scenario: "c12_afterrebalance", Params: mustJSON(AfterRebParams{OldServer: true, CloseFault: true}), Bound: 0, Shards: 8, Note: "serial close with a failing close-stream request: ends in the next session are still processed"})
 			out = append(out, Instance{Scenario: "c12_afterrebalance", Params: mustJSON(struct{}{}), Bound: 1, Shards: 8, Note: "the stop rule in the sessions after 1..2 real rebalances"})
+			out = append(out, Instance{Scenario: "c07_gate", Params: mustJSON(MitigationParams{Replicas: 1, TransientEnd: true, FailoverAtEnd: true}), Bound: 0, Shards: 8, Note: "rollback mitigation on (the default): after a transient end with a fail-over the re-opened vBucket keeps being streamed - an event covered by what the copies reported is delivered although no copy reports anything new"})
+			out = append(out, Instance{Scenario: "c07_gate", Params: mustJSON(MitigationParams{Replicas: 1, TransientEnd: true}), Bound: 0, Shards: 8})
+			out = append(out, Instance{Scenario: "c12_afterrebalance", Params: mustJSON(AfterRebParams{Dynamic: true}), Bound: 1, Shards: 8, Note: "dynamic membership (the re-open follows the close at once), every schedule within one deviation: the sessions after 1..2 rebalances stop exactly when their last vBucket has ended for good"})
+			out = append(out, Instance{Scenario: "c12_afterrebalance", Params: mustJSON(AfterRebParams{OldServer: true, Dynamic: true}), Bound: 1, Shards: 8, Note: "the same against a server below 5.5.0"})
+			out = append(out, Instance{Scenario: "c12_finite_rebalance", Params: mustJSON(struct{}{}), Bound: 0, Note: "a finite run across a rebalance with a slow application hook: the re-opened session's vBuckets end while the hook runs - the client still stops on its own"})
 			out = append(out, Instance{Scenario: "c12_duringopen", Params: mustJSON(struct{}{}), Bound: b - 1, Shards: 4, Note: "a stream ends while Open() still waits for another vBucket (start-up and re-open after a rebalance)"})
 			for f := 1; f <= 5; f++ {
 				out = append(out, Instance{Scenario: "c12_reopenfail", Params: mustJSON(ReopenFailParams{Failures: f}), Bound: 0})
@@ -627,6 +633,11 @@ type AfterRebParams struct {
 	// ReopenPending: dynamic membership (immediate re-open). A vBucket ended transiently and its first re-open
 	// attempt failed: the retry is sleeping (1 s) when the first rebalance starts - and is over long before it wakes
 	ReopenPending bool `json:"reopen_pending"`
+	// Dynamic: dynamic membership (the re-open follows the close at once: what the closed session's streams still
+	// report lands in the middle of the new session's start-up)
+	Dynamic bool `json:"dynamic"`
+	// CountOnly: only the active-stream figure is judged (the scenario registered under C16)
+	CountOnly bool `json:"count_only"`
 }
 
 // c12_afterrebalance: the "stops on its own iff every assigned vBucket ended for good" rule in the sessions
@@ -643,19 +654,45 @@ func init() {
 			if p.OldServer {
 				o.Version = &couchbase.Version{Major: 5, Minor: 0, Patch: 1}
 			}
-			if p.ReopenPending {
+			if p.ReopenPending || p.Dynamic {
 				o.MembershipType = "dynamic"
 			}
 			c := NewCluster(&o)
 			e := NewEnv(c, o)
 			e.Cons.AutoAck = true
-			if p.ReopenPending {
+			if p.ReopenPending || p.Dynamic {
 				publishInfo(e, 1, 1)
 				vrt.Sleep(1)
 			}
 			e.Stream.Open()
 			c.WaitIdle()
 			nreb := 1 + vrt.Choose(2, true, "rebalances")
+			lateWait := ""
+			// when the re-open of a rebalance begins, the waiter goroutine of the session it closed has taken the close
+			// token and is gone; if it is still there it will take its token AFTER Open() has reset the session flags
+			// (the listed fourth C11 finding)
+			inRebalance := false
+			e.EH.On = func(n string) {
+				if n == "BRS" {
+					inRebalance = true
+				}
+				if n == "ARE" {
+					inRebalance = false
+				}
+				if n != "BSStart" || !inRebalance {
+					return
+				}
+				// (the re-open begins: Open() is about to reset the session flags and to start the new waiter)
+				waiters := 0
+				for _, th := range vrt.LiveThreads() {
+					if strings.HasPrefix(th, "stream.(*stream).Open:") {
+						waiters++
+					}
+				}
+				if waiters > 0 {
+					lateWait = " [the wait() goroutine of the session that the rebalance closed was delayed past the end of the rebalance: it competes with the new session's waiter for the finish tokens]"
+				}
+			}
 			if p.ReopenPending {
 				pvb := uint16(vrt.Choose(3, true, "vbucket-with-a-pending-re-open"))
 				c.Vb[pvb].Opens = append(c.Vb[pvb].Opens, gocbcore.SimOpen{Kind: "err", Err: gocbcore.ErrTemporaryFailure})
@@ -688,7 +725,7 @@ func init() {
 				// (schedule window: the END(closed) notifications of the rebalance's own close may be processed
 				// before or after the observers stop forwarding ends)
 				vrt.Window(true)
-				if p.ReopenPending {
+				if p.ReopenPending || p.Dynamic {
 					publishInfo(e, 1, 1)
 					vrt.Sleep(1)
 				}
@@ -705,7 +742,9 @@ func init() {
 				vrt.Window(false)
 			}
 			if vrt.Closed(e.StopCh) {
-				vrt.Failf("%d rebalance(s) stopped the client", nreb)
+				if !p.CountOnly {
+					vrt.Failf("%d rebalance(s) stopped the client%s", nreb, lateWait)
+				}
 				return
 			}
 			if got := activeCount(e); got != 3 {
@@ -733,8 +772,8 @@ func init() {
 				if got := activeCount(e); int(got) != 2-i {
 					vrt.Failf("after %d rebalance(s) and %d final end(s) (%s): active stream count %d, want %d", nreb, i+1, fc.name, got, 2-i)
 				}
-				if stopped := vrt.Closed(e.StopCh); stopped != (i == 2) {
-					vrt.Failf("after %d rebalance(s) and %d of 3 vBuckets ended for good (%s): client stop signalled = %v", nreb, i+1, fc.name, stopped)
+				if stopped := vrt.Closed(e.StopCh); stopped != (i == 2) && !p.CountOnly {
+					vrt.Failf("after %d rebalance(s) and %d of 3 vBuckets ended for good (%s): client stop signalled = %v%s", nreb, i+1, fc.name, stopped, lateWait)
 				}
 			}
 			vrt.SetOutcome(fmt.Sprintf("%d %v %s %v", nreb, order, fc.name, transientFirst))
@@ -799,6 +838,64 @@ func init() {
 					vrt.Failf("%s: after %d of 2 assigned vBuckets ended for good: client stop signalled = %v", desc, i+1, stopped)
 				}
 			}
+		}}
+	}
+}
+
+// c12_finite_rebalance: a finite run goes through a rebalance, and the application's AfterRebalanceEnd hook is
+// slow (10 s): the vBuckets of the re-opened session reach their end bound while the hook is still running. "The
+// client stops on its own if and only if every assigned vBucket stream has ended for good": it does, with every
+// event up to the sampled high seqno delivered.
+func init() {
+	scenarios["c12_finite_rebalance"] = func(raw json.RawMessage) *vrt.Scenario {
+		return &vrt.Scenario{Name: "c12_finite_rebalance", FreeChoices: true, NoTimerAlt: true, MaxSteps: 400000, Main: func() {
+			resetGlobals()
+			hook := []string{"ARE", "BRE", "ARS", "none"}[vrt.Choose(4, true, "slow-hook")]
+			o := EnvOpts{Vbs: 2, CheckpointType: "auto", CheckpointInterval: 1000 * time.Second, Mode: config.DcpModeFinite, WrapMeta: true, RebalanceDelay: 2 * time.Second}
+			c := NewCluster(&o)
+			for vb := uint16(0); vb < 2; vb++ {
+				c.Append(vb, marker(1, 3), symbolPacket("M", 1), symbolPacket("M", 2), symbolPacket("M", 3))
+			}
+			e := NewEnv(c, o)
+			e.Cons.AutoAck = true
+			// the consumer is busy with the first event of vb1 for 5 s: the first session is in mid-run when the
+			// rebalance arrives
+			first := true
+			e.Cons.OnConsume = func(d *Delivered) {
+				if first && d.Vb == 1 {
+					first = false
+					vrt.Sleep(5 * time.Second)
+				}
+			}
+			e.EH.On = func(n string) {
+				if n == hook {
+					vrt.Sleep(10 * time.Second) // a slow application hook
+				}
+			}
+			vrt.GoNamed("opener", func() { e.Stream.Open() })
+			vrt.Sleep(time.Second)
+			vrt.GoNamed("rebalancer", func() { e.Stream.Rebalance() })
+			vrt.Sleep(3 * time.Minute)
+			vrt.Quiesce()
+			desc := fmt.Sprintf("finite run, a rebalance 1 s into it, slow %s hook", hook)
+			for vb := uint16(0); vb < 2; vb++ {
+				seen := map[uint64]bool{}
+				for _, d := range e.Cons.Events {
+					if d.Vb == vb {
+						seen[d.Seq] = true
+					}
+				}
+				for s := uint64(1); s <= 3; s++ {
+					if !seen[s] {
+						vrt.Failf("%s: event %d of vb%d (at or below the sampled high seqno 3) was never delivered", desc, s, vb)
+					}
+				}
+			}
+			if !vrt.Closed(e.StopCh) {
+				_, active := e.Stream.GetMetric()
+				vrt.Failf("%s: every vBucket has reached its end bound (active streams %d), the client did not stop on its own", desc, active)
+			}
+			vrt.SetOutcome(desc)
 		}}
 	}
 }
